@@ -127,3 +127,17 @@ def all_shapes(max_n: int, depth: int, width: int = 3) -> list[Any]:
     for n in range(1, max_n + 1):
         out.extend(number(s) for s in shapes(n, depth, width))
     return out
+
+
+def falsify(recipe: Any) -> Any:
+    """The same recipe with its last VLeaf (pre-order) replaced by a VFalsy node, i.e. a node that
+    is falsy in a boolean context (same `v`)."""
+    from .zoo import edit_at, positions_of, sub_recipe
+
+    last = None
+    for p in positions_of(recipe):
+        if sub_recipe(recipe, p)[0] == "VLeaf":
+            last = p
+    if last is None:
+        return recipe
+    return edit_at(recipe, last, lambda r: ("VFalsy", r[1], r[2], r[3]))
